@@ -24,7 +24,7 @@ pub open spec fn consts_match<B: BlockProvider, N: NotificationService, P: Payme
       !old(w).lock_held
 //@ requires#exactly_once [C06,C07]
       !old(w).released && old(w).resolved is None
-//@ requires#fail_only_when_nothing_live [C02]
+//@ requires#fail_only_when_nothing_live [C02,C03]
 //    C02: fail back only when no outgoing part is pending or complete and no pay is running
       resp is Fail ==> (!live(*old(w)) && !old(w).pay_running)
 //@ requires#settle_only_with_the_preimage [C01]
